@@ -164,7 +164,33 @@ def evaluate(ctx, cases, stream):
     gl.evaluate_cases(ctx, cases, stream, THEOREM, nontrivial, what_key=what_key)
 
 
+def probe_outcomes():
+    """a fixed graph asked with absent nodes and bad indices, as a digest (environment probe)"""
+    _, TermId, _, _ = gl._hp()
+    edges = [('HP:0000002', 'HP:0000001'), ('HP:0000003', 'HP:0000001'), ('HP:0000004', 'HP:0000002'), ('HP:0000004', 'HP:0000003')]
+    out = {}
+    for f in gl.FACTORIES:
+        g = gl.build_impl(f, edges)
+        for a in ('HP:0000009', 'HP:0000000', 'MP:0000002', 'HP:00000021'):
+            t = TermId.from_curie(a)
+            for q in gl.QS:
+                for incl in (False, True):
+                    out[f'{f} {q} {a} {incl}'] = str(gl.impl_answer(g, ['q', q, t, incl]))
+            out[f'{f} leaf {a}'] = str(gl.impl_answer(g, ['leaf', t]))
+            for pr in gl.PREDS:
+                out[f'{f} {pr} known,{a}'] = str(gl.impl_answer(g, ['pred', pr, TermId.from_curie('HP:0000002'), t]))
+                out[f'{f} {pr} {a},known'] = str(gl.impl_answer(g, ['pred', pr, t, TermId.from_curie('HP:0000002')]))
+            out[f'{f} contains {a}'] = str(gl.impl_answer(g, ['contains', t]))
+        for i in (-6, -5, -4, -1, 4, 5, 6, 10 ** 9):
+            for q in gl.QS:
+                out[f'{f} qidx {q} {i}'] = str(gl.impl_answer(g, ['qidx', q, i]))
+            out[f'{f} idx2node {i}'] = str(gl.impl_answer(g, ['idx2node', i]))
+    return out
+
+
 def run(ctx):
+    import common
+    common.environment_probe(ctx, 'c14', 'probe_outcomes', 'Hpv.Props.C14.* (rejections do not depend on the environment)')
     rng = ctx.rng
     thorough = ctx.tier == 'thorough'
     label_sets = gl.LABEL_SETS[:4] if thorough else [gl.LABEL_SETS[0], gl.LABEL_SETS[2]]
